@@ -620,14 +620,8 @@ def setup(opts):
     W.cwd = tempfile.mkdtemp(prefix="pmcwd_", dir=real_os.getcwd())
     real_os.chdir(W.cwd)
     atexit.register(shutil.rmtree, W.cwd, True)
-    # the names the unchanged module uses, unconditionally (as before)
-    pm.Process = FProc
-    pm.Event = FEvent
-    pm.Queue = FQueue
-    pm.sleep = fsleep
-    pm.os = FOs("os")
-    pm.signal = FSignal("signal")
-    pm.current_process = fcurrent_process
+    # (no unconditional `pm.Process = FProc` ... any more: every binding of the real objects was replaced by identity above,
+    # and a by-name assignment could clobber a name the module binds to something else)
     # a function-local `import multiprocessing` / `from multiprocessing import ...` sees the same environment
     for m in (real_mp, real_mp_process):
         for k in ("current_process", "parent_process", "active_children"):
